@@ -47,6 +47,7 @@ K("awkward_IndexedArray_flatten_none2empty",
 
 # ---------------------------------------------------------------- ListArray
 K("awkward_ListArray_getitem_jagged_apply",
+  store_asserts={"tocarry": ["fromstarts[i] <= value and value < fromstops[i]"]},
   sums={"S": ("q", "sliceouterlen", "slicestops[q] - slicestarts[q]")},
   extents={"sliceindex": "sliceinnerlen", "tocarry": "S(sliceouterlen)"},
   requires=[NONNEG("slicestarts", "sliceouterlen"), STARTS_LE_STOPS("slicestarts", "slicestops", "sliceouterlen")],
@@ -57,6 +58,7 @@ K("awkward_ListArray_getitem_jagged_apply",
 
 K("awkward_ListArray_getitem_next_array_advanced",
   extents={"fromarray": "lenarray"},
+  store_asserts={"tocarry": ["fromstarts[i] <= value and value < fromstops[i]"], "toadvanced": ["value == i"]},
   requires=[INRANGE("fromadvanced", "lenstarts", "lenarray")],
   serves=["C01", "C12", "C13"])
 
@@ -105,6 +107,8 @@ K("awkward_ListOffsetArray_flatten_offsets",
 
 K("awkward_ListOffsetArray_rpad_and_clip_axis1",
   extents={"toindex": "length * target"},
+  store_asserts={"toindex": ["value == -1 or (fromoffsets[i] <= value and value < fromoffsets[i + 1])",
+                             "i * target <= index and index < (i + 1) * target"]},
   requires=[SORTED("fromoffsets", "length + 1")],
   serves=["C09", "C12", "C13"])
 
